@@ -298,8 +298,9 @@ def exhaustive(ctx, nkeys, maxlen):
         for b in bad:
             ctx.fail(b, "LFUCache deviates from a bounded LFU map: " + b["error"])
     ctx.evaluations += n
-    ctx.note("exhaustive", {"keys": nkeys, "max_len": maxlen, "capacities": caps, "sequences": n,
-                            "with_eviction_or_hit": nontriv, "exhaustive": True})
+    ctx.note("exhaustive_sequences", {"keys": nkeys, "max_len": maxlen, "capacities": caps, "sequences": n,
+                                      "with_eviction_or_hit": nontriv})
+    ctx.note("exhaustive", True)
     ctx.nontrivial.update(("ex", i) for i in range(nontriv))  # distinct by construction (enumeration)
     # model side: one coqc per capacity
     import concurrent.futures as cf
